@@ -297,6 +297,11 @@ def judge(lab, case):
     return "ok"
 
 
+def bucket_of(case, r):
+    """backend | what went wrong | arch | instruction template | fault kind   (position / warm are in the detail)"""
+    return "%s|%s|%s|%s|%s" % (case["backend"], r[0], case["arch"], case["insn"], case["fault"])
+
+
 def product(tier):
     cases = []
     for arch in ("x86_32", "x86_64", "arml", "mips32l"):
@@ -343,7 +348,11 @@ class C49(Check):
     def run_shard(self, tier, seed, shard, nshards):
         res = ShardResult()
         cases = product(tier)
-        mine = [c for i, c in enumerate(cases) if i % nshards == shard]
+        # all cases of one (arch, instruction, position) program go to the same shard: its translated blocks are
+        # compiled once (the gcc block cache is private to the shard's worker)
+        progs = sorted(set((c["arch"], c["insn"], c["pos"]) for c in cases))
+        owner = {k: i % nshards for i, k in enumerate(progs)}
+        mine = [c for c in cases if owner[(c["arch"], c["insn"], c["pos"])] == shard]
         res.exhaustive["backend x arch x instruction x position x fault"] = True
         with jitlab.JitLab(time_limit=600 if tier == "thorough" else 300) as lab:
             for case in mine:
@@ -364,8 +373,7 @@ class C49(Check):
                 if len(res.samples) < 3 and case["fault"].startswith("straddle"):
                     res.samples.append(case)
                 if r != "ok":
-                    bucket = "%s|%s|%s|%s|%s|%s%s" % (case["backend"], r[0], case["arch"], case["insn"], case["fault"],
-                                                      case["pos"], "|warm" if case.get("warm") else "")
+                    bucket = bucket_of(case, r)
                     res.fail(bucket, r[1] + " [%r]" % (case,), case)
             if lab.stats["timeout"]:
                 res.dropped["worker-time-limit"] += lab.stats["timeout"]
@@ -376,9 +384,7 @@ class C49(Check):
             r = judge(lab, case)
         if r is None or isinstance(r, str):
             return None
-        bucket = "%s|%s|%s|%s|%s|%s%s" % (case["backend"], r[0], case["arch"], case["insn"], case["fault"],
-                                          case["pos"], "|warm" if case.get("warm") else "")
-        return Failure(bucket, r[1], case)
+        return Failure(bucket_of(case, r), r[1], case)
 
 
 CHECK = C49()
